@@ -720,11 +720,10 @@ def prop_C05(ctx):
     forms = gen.c05_forms()
     combos = [()] + [(f,) for f in forms]
     pairs = [(f, g) for f in forms for g in forms]
-    if q:
-        pairs = sample(ctx.rng, pairs, 1500)
+    pairs = sample(ctx.rng, pairs, 1800 if q else 14000)
     triples = [tuple(ctx.rng.choice(forms) for _ in range(ctx.rng.choice([3, 3, 4]))) for _ in range(300 if q else 6000)]
     for shape, mk in (('named', lambda fs: gen.c05_item(fs, 'named')), ('tuple', lambda fs: gen.c05_item(fs, 'tuple')), ('variant', gen.c05_variant_item)):
-        sel = combos + (pairs if shape == 'named' or not q else sample(ctx.rng, pairs, 400)) + (triples if shape == 'named' else triples[:len(triples) // 4])
+        sel = combos + (pairs if shape == 'named' or not q else sample(ctx.rng, pairs, 700)) + (triples if shape == 'named' else triples[:len(triples) // 4])
         items = [mk(list(fs)) for fs in sel]
         recs = ctx.run_set('chain_' + shape, items, vlib.obs_full)
         base = {}
@@ -736,7 +735,7 @@ def prop_C05(ctx):
             fs = r['item'].meta['forms']
             if len(fs) < 2 or vlib.outcome_class(r['out']) != 'ok':
                 continue
-            attrs = [gen.c05_attr(f, i + 1) for i, f in enumerate(fs)]
+            attrs = [gen.c05_attr(f, i + 1, r['item'].meta['shape'] != 'tuple') for i, f in enumerate(fs)]
             got = impls_by_header(r['out'])
             for hdr, text in got.items():
                 kfc = oracles.header_context(hdr)
@@ -750,7 +749,7 @@ def prop_C05(ctx):
                     continue
                 nctx += 1
                 # the winner's marker number differs between the single-instruction item (always 1) and this one: normalise
-                want = ref.replace('e1', 'e%d' % (w + 1)).replace('g1', 'g%d' % (w + 1)).replace('Ty1', 'Ty%d' % (w + 1)) if w is not None else ref
+                want = ref.replace('e1', 'e%d' % (w + 1)).replace('g1', 'g%d' % (w + 1)).replace('Ty1', 'Ty%d' % (w + 1)).replace('m1', 'm%d' % (w + 1)) if w is not None else ref
                 if text != want:
                     ctx.report(r, 'conversion (%s, fallible=%s, %s): the instruction that should take effect is %s, but the impl is not the one generated '
                                'when only that instruction is present' % (kind, fallible, cp, ('#%d %s' % (w + 1, attrs[w].render())) if w is not None else 'none'),
